@@ -577,6 +577,24 @@ pub fn run() -> i32 {
                 }
             }
         }
+        for case in 0..=2u8 {
+            crate::sym::load(vec![vec![case]]);
+            n += 1;
+            if std::panic::catch_unwind(|| crate::node::c07_method_too_few_arguments()).is_err() {
+                c11_bad += 1;
+                eprintln!("SELFTEST-FAIL: c07_method_too_few_arguments: case {}", case);
+            }
+        }
+        for op in 0..2u8 {
+            for case in 0..=5u8 {
+                crate::sym::load(vec![vec![op], vec![case]]);
+                n += 1;
+                if std::panic::catch_unwind(|| crate::node::c04_grouped_chain()).is_err() {
+                    c11_bad += 1;
+                    eprintln!("SELFTEST-FAIL: c04_grouped_chain: op={} case={}", op, case);
+                }
+            }
+        }
         for code in 0..=5u8 {
             crate::sym::load(vec![vec![code]]);
             n += 1;
